@@ -61,7 +61,9 @@ def receivers(want_signed):
 MUTS = ['none', 'none', 'none', 'none', 'missing-attr', 'other-type', 'wrong-root', 'issuer-unknown', 'garble', 'script', 'script', 'edit-after-sign']
 DMODES = ['own', 'own', 'own', 'own', 'foreign', 'near', 'near', 'other-own', 'absent', 'absent']
 OFFSETS = [0, 0, 0, 0, 0, 3600, -3600, -86400 - 2, -86400 + 2, 86400 - 2, 86400 + 2, -10 * 86400, 10 * 86400, -400 * 86400]
-TBS = [('authn', 'redirect'), ('authn', 'post'), ('logout', 'redirect'), ('logout', 'post'), ('logout', 'soap'), ('attrq', 'soap'), ('sp-logout', 'redirect'), ('sp-logout', 'soap')]
+TBS = [('authn', 'redirect'), ('authn', 'post'), ('logout', 'redirect'), ('logout', 'post'), ('logout', 'soap'), ('attrq', 'soap'), ('sp-logout', 'redirect'), ('sp-logout', 'soap'),
+       # delivery over a binding for which the receiver has configured no endpoint of that service
+       ('authn', 'soap'), ('attrq', 'post'), ('sp-logout', 'post')]
 
 
 def case_strategy():
@@ -94,7 +96,7 @@ def run(case):
         sender, skey, trusted = SPE_ENC, 2, []       # signs with the key its metadata lists for encryption only
     elif who == 'no-key':
         sender, skey, trusted = SPE_NOKEY, 0, []
-    own = ENDPOINTS[(typ, binding)]
+    own = ENDPOINTS.get((typ, binding)) or [v for (t, bb), v in sorted(ENDPOINTS.items()) if t == typ][0]     # no endpoint for this binding: an own endpoint of the service
     mut = case['mut']
     fields = {'id': 'id-q-1', 'issue_instant': build.ts(NOW), 'destination': own, 'issuer': sender}
     dmode = case.get('dmode', 'own')
@@ -182,7 +184,7 @@ def run(case):
         req, err = None, e
     handed = req is not None and getattr(req, 'message', None) is not None
     want = bool(case['want_signed']) and typ != 'sp-logout'
-    pristine = who == 'std' and mut == 'none' and dmode in ('own', 'absent') and abs(case['offset']) <= 86400 - 2 and (case['signed'] in ('no', 'issuer')) and not (want and case['signed'] == 'no')
+    pristine = (typ, binding) in ENDPOINTS and who == 'std' and mut == 'none' and dmode in ('own', 'absent') and abs(case['offset']) <= 86400 - 2 and (case['signed'] in ('no', 'issuer')) and not (want and case['signed'] == 'no')
     if binding == 'soap' and case['signed'] != 'no':
         pristine = False    # the SOAP decoder re-serialises the body; signatures over foreign prefixes do not survive it (transport limitation, see C08 known finding)
     mlabel = mut if mut not in ('script', 'xsw') else mut + ':' + '+'.join(sorted(set(l.split('|')[0] for l in labels)) or ['noop'])
